@@ -46,6 +46,52 @@ def run(c):
         for m in rr["first"]:
             if m["got"].get("errs") != m["want"].get("errs"):
                 c.violate("unexpected-symbol diagnostics differ on %r" % m["text"], {"kind": "replay-lex-errors", "text": m["text"], "got": m["got"].get("errs"), "want": m["want"].get("errs")})
+    # ---- definition-order diagnostics: "The definition of A references B ..." must show the definition of A (the text after
+    # its `=`), nothing else.  Groups of 3-5 definitions, one per line, with functions reached indirectly; launched through the
+    # real binary; the excerpt (gutter line number, overlined columns) is read back from the message.
+    import random, re, cli
+    gram = vf.build_gram()
+    rr = random.Random(c.seed)
+    dd = os.path.join(d, "deforder")
+    os.makedirs(dd, exist_ok=True)
+    ndo = ndiag = 0
+    for fi in range(60 if q else 600):
+        n = rr.randint(3, 5)
+        is_fun = [rr.random() < 0.45 for _ in range(n)]
+        rhs = []
+        for i in range(n):
+            others = [j for j in range(n) if j != i]
+            j = rr.choice(others)
+            if is_fun[i]:
+                rhs.append("(x : int) => %s + x" % ("d%d" % j if not is_fun[j] else "d%d x" % j))
+            else:
+                rhs.append(rr.choice(["%d + %d" % (rr.randint(0, 9), rr.randint(0, 9)), "d%d %d" % (j, rr.randint(0, 3)) if is_fun[j] else "d%d + 1" % j]))
+        pad = [" " * rr.randint(0, 3) for _ in range(n)]
+        lines = ["%sd%d = %s" % (pad[i], i, rhs[i]) for i in range(n)] + ["d0" if not is_fun[0] else "d0 1"]
+        path = os.path.join(dd, "o%03d.g" % fi)
+        open(path, "w").write("\n".join(lines) + "\n")
+        rc, out, err = cli.launch(gram, "check", path)
+        text = err.decode("utf-8", "replace")
+        ndo += 1
+        for m in re.finditer(r"The definition of `(d\d+)` references `(d\d+)`[^\n]*\n\n((?:[^\n]*\n)+?)(?:\n|$)", text):
+            ndiag += 1
+            a = int(m.group(1)[1:])
+            block = m.group(3).split("\n")
+            shown = [(int(g.group(1)), g.group(2)) for g in (re.match(r"\s*(\d+) \u2502 (.*)$", b) for b in block) if g]
+            marks = [b for b in block if "\u203e" in b]
+            ok = len(shown) == 1 and shown[0][0] == a + 1 and len(marks) == 1
+            if ok:
+                gut = len(block[0]) - len(shown[0][1])
+                col0 = marks[0].index("\u203e") - gut
+                marked = shown[0][1][col0:col0 + marks[0].count("\u203e")]
+                ok = marked == rhs[a]
+            if not ok:
+                c.violate("definition-order diagnostic about %s does not show the definition of %s: %s" % (m.group(1), m.group(1), " | ".join(lines)),
+                          {"kind": "deforder-excerpt", "text": "\n".join(lines), "about": m.group(1), "excerpt": m.group(3)[:400]})
+    c.cov["replayed_cases"] += ndo
+    c.cov["definition_order_diagnostics"] = {"files": ndo, "diagnostics_checked": ndiag}
+    if ndiag == 0:
+        raise vf.ToolError("no definition-order diagnostic was produced by the generated groups")
     # ---- syntax diagnostics: position, expectation and order as the parser specification prescribes (every token string up to the
     # bound through parse(); larger inputs through the memo-table trace)
     pegcommon.run(c, "C15", 400 if c.quick else 4000)
